@@ -335,6 +335,8 @@ class Exec:
 
     def field_of(self, v, variant, idx, fty):
         v = self.materialize(v)
+        if isinstance(v, Ref) and variant is None and idx == 0 and ('ptr::Unique<' in fty or 'ptr::NonNull<' in fty):
+            return v        # Box<T> internals (Unique / NonNull wrappers): the pointer itself
         if isinstance(v, Adt):
             key = (variant, idx)
             if key in v.fields:
@@ -427,6 +429,9 @@ class Exec:
 
     # ---- frames
     def call_body(self, body, args):
+        hook = self.models.body_hooks.get(body.name)
+        if hook is not None:
+            return hook(self, body, args)
         fr = Frame(self, body, args)
         return fr.run()
 
@@ -440,7 +445,9 @@ class Exec:
                 body = self.prog.closure_body(f0.ty)
                 if body is None:
                     raise Inconclusive('no body for closure %s' % f0.ty)
-                return self.call_body(body, [f] + list(args))
+                if body.params[0][1].strip().startswith('&'):
+                    return self.call_body(body, [f] + list(args))
+                return self.call_body(body, [f0] + list(args))
             f = f0
         if isinstance(f, Adt) and f.ty.startswith('{closure@'):
             body = self.prog.closure_body(f.ty)
@@ -488,7 +495,11 @@ class Frame:
     def cell(self, l):
         c = self.cells.get(l)
         if c is None:
-            c = Cell(UNINIT, name='%s._%d' % (self.body.name[-30:], l))
+            ty = self.body.locals.get(l, '')
+            init = UNINIT
+            if ty.startswith('{closure@'):
+                init = Adt(ty, {}, None, None)      # zero-sized closure: never assigned in MIR
+            c = Cell(init, name='%s._%d' % (self.body.name[-30:], l))
             self.cells[l] = c
         return c
 
@@ -827,5 +838,10 @@ class Frame:
                     raise PathEnd('panic', 'resume in %s' % body.name)
                 else:
                     raise Inconclusive('terminator %r in %s' % (t[:2], body.name))
+        except Inconclusive as e:
+            if len(getattr(e, 'trace', [])) < 6:
+                e.trace = getattr(e, 'trace', []) + ['%s bb%d' % (body.name[-70:], bb)]
+                e.args = (e.args[0].split(' @@ ')[0] + ' @@ ' + ' <- '.join(e.trace),)
+            raise
         finally:
             ex.depth -= 1
